@@ -230,9 +230,26 @@ struct Finding {
 /// Reduce a failing case (in one configuration) to a 1-minimal sequence with the smallest
 /// arguments that fails with the same descriptor; also the set of configurations in which that
 /// sequence fails the same way.
+/// Does the implementation fold local writes into its replica unevenly on `seq` - i.e. does what it
+/// reports match neither the fold of the notifications nor the fold of notifications and local
+/// writes (the known, uniform, deviation of the client map downlink)?
+fn uneven_local_fold(target: Target, mode: Mode, cfg: Cfg, seq: &[Sym], w: &Wire, runs: &mut u64) -> bool {
+    match target {
+        Target::One(imp) if seq.iter().any(|s| s.is_local()) => {
+            *runs += 1;
+            let out = run_one(imp, mode.kind, cfg, seq, w, mode.backing);
+            out.panic.is_none() && !out.hang && model::check_with(mode.kind, cfg, imp, seq, &out, mode.tolerant, true).mismatch.is_some()
+        }
+        _ => false,
+    }
+}
+
 fn reduce(target: Target, mode: Mode, cfg_idx: usize, seq: &[Sym], m: &Mismatch, w: &Wire, runs: &mut u64) -> (Vec<Sym>, Mismatch, [bool; 4]) {
     let cfg = CFGS[cfg_idx];
-    let same = |cand: &[Sym], runs: &mut u64| fails(target, mode, cfg, cand, w, runs).filter(|x| x.desc == m.desc);
+    // a reproducer of an uneven fold is reduced only to reproducers of an uneven fold (dropping the
+    // operation that was not folded would otherwise lead back to the known, uniform, family)
+    let keep_uneven = uneven_local_fold(target, mode, cfg, seq, w, runs);
+    let same = |cand: &[Sym], runs: &mut u64| fails(target, mode, cfg, cand, w, runs).filter(|x| x.desc == m.desc).filter(|_| !keep_uneven || uneven_local_fold(target, mode, cfg, cand, w, runs));
     let mut cur: Vec<Sym> = seq[..(m.step + 1).min(seq.len())].to_vec();
     if same(&cur, runs).is_none() {
         cur = seq.to_vec();
@@ -306,8 +323,21 @@ fn minimise(target: Target, mode: Mode, cfg_idx: usize, seq: &[Sym], m: &Mismatc
     culprits.dedup();
     let classes: Vec<&'static str> = cur.iter().map(|s| s.class()).collect();
     let panicky = m.desc.law == "no_panic" || m.desc.law == "terminates";
-    let mut sig = if culprits.contains(&"local_write") && !panicky {
+    // a deviation that needs a local write is the known family only if the implementation does
+    // what it evidently intends - fold every local write into the replica while linked; folding
+    // some operations or phases and not others is a different defect
+    let folds_uniformly = !uneven_local_fold(target, mode, CFGS[set.iter().position(|b| *b).unwrap_or(cfg_idx)], &cur, w, runs);
+    let mut sig = if culprits.contains(&"local_write") && !panicky && folds_uniformly {
         format!("impl={} kind={} law={} cause=local_write (a local write through the handle changes what the callbacks report)", target.name(), mode.kind.name(), m.desc.law)
+    } else if culprits.contains(&"local_write") && !panicky {
+        format!(
+            "impl={} kind={} law={} cause=local_write_folded_unevenly (the replica matches neither the fold of the notifications nor the fold of notifications and local writes) at={} needs={}",
+            target.name(),
+            mode.kind.name(),
+            m.desc.law,
+            m.desc.at,
+            cur.iter().filter(|s| s.is_local()).map(|s| s.class_detail()).collect::<Vec<_>>().join("+")
+        )
     } else {
         format!(
             "impl={} kind={} law={} at={} field={} culprits={} cfg={}",
@@ -558,7 +588,8 @@ fn run_layer(sh: &Shared, leg: &Bfs, cfg_idx: usize, depth: usize, frontier: &[N
                         if let Some(m) = c.mismatch {
                             mask &= !(bit | DIFF_OK | if imp == Imp::Client { BURST_C_OK } else { BURST_H_OK });
                             st.failing_prefixes += 1;
-                            if attribute(&frozen, Target::One(imp), leg.mode, cfg_idx, &seq, &m) || attribute(&new_patterns, Target::One(imp), leg.mode, cfg_idx, &seq, &m) {
+                            let uneven = seq.iter().any(|s| s.is_local()) && out.panic.is_none() && !out.hang && model::check_with(leg.mode.kind, cfg, imp, &seq, &out, leg.mode.tolerant, true).mismatch.is_some();
+                            if !uneven && (attribute(&frozen, Target::One(imp), leg.mode, cfg_idx, &seq, &m) || attribute(&new_patterns, Target::One(imp), leg.mode, cfg_idx, &seq, &m)) {
                                 st.attributed += 1;
                             } else {
                                 let f = minimise(Target::One(imp), leg.mode, cfg_idx, &seq, &m, leg.name, &sh.wire, &mut st.minimise_runs);
